@@ -668,6 +668,119 @@ fn gen_trace(g: &mut Gen) -> TraceOut {
     out
 }
 
+
+// ---------------------------------------------------------------- close() racing one operation, every merge
+/// scenario = (cfg, set-up operations run to completion or until parked, the racing operation)
+type Opn = (i64, i64, i64);
+fn race_scenarios() -> Vec<(Cfg, Vec<Opn>, Opn)> {
+    let c = |ctor: i64, max: usize| Cfg { ctor, max, ptmo: 0 };
+    vec![
+        (c(2, 1), vec![], (OP_GET, 1, 0)),                      // try_get, object present
+        (c(2, 1), vec![], (OP_GET, 0, 0)),                      // get
+        (c(2, 1), vec![], (OP_GET, 3, 0)),                      // timeout_get(0)
+        (c(2, 1), vec![], (OP_GET, 1, 1)),                      // try_remove
+        (c(2, 1), vec![], (OP_GET, 0, 1)),                      // remove
+        (c(0, 1), vec![], (OP_ADD, 0, 0)),                      // try_add, slot free
+        (c(0, 1), vec![], (OP_ADD, 0, 1)),                      // add, slot free
+        (c(0, 1), vec![(OP_ADD, 0, 0)], (OP_ADD, 1, 1)),        // add parks on the full pool
+        (c(0, 1), vec![], (OP_GET, 0, 0)),                      // get parks on the empty pool
+        (c(2, 1), vec![(OP_GET, 1, 0)], (OP_DROP, 0, 0)),       // return
+        (c(2, 1), vec![(OP_GET, 1, 0)], (OP_TAKE, 0, 0)),       // take
+        (c(2, 1), vec![], (OP_STATUS, 0, 0)),                   // status
+        (c(2, 2), vec![(OP_GET, 1, 0)], (OP_DROP, 1, 0)),       // return, queue not empty
+        (c(0, 2), vec![(OP_ADD, 0, 0)], (OP_ADD, 1, 0)),        // try_add, queue not empty
+        (c(2, 1), vec![(OP_GET, 1, 0), (OP_GET, 0, 0)], (OP_DROP, 0, 0)), // return wakes a parked get
+        (c(0, 1), vec![(OP_ADD, 0, 0), (OP_ADD, 1, 1)], (OP_GET, 1, 1)),  // try_remove wakes a parked add
+        (c(2, 1), vec![(OP_GET, 1, 0)], (OP_GET, 2, 0)),        // timeout_get(None) parks, object out
+    ]
+}
+
+const RACE_KMAX: i64 = 8;
+fn race_patterns() -> Vec<[i64; 4]> {
+    let mut v = vec![];
+    for a in 0..=RACE_KMAX {
+        for b in a..=RACE_KMAX {
+            for c in b..=RACE_KMAX {
+                for d in c..=RACE_KMAX {
+                    v.push([a, b, c, d]);
+                }
+            }
+        }
+    }
+    v
+}
+
+fn race_trace(scn: &(Cfg, Vec<Opn>, Opn), ks: [i64; 4]) -> TraceOut {
+    let cfg = scn.0.clone();
+    let mut w = World::new(&cfg);
+    let mut out = TraceOut {
+        cfg,
+        labels: vec![],
+        obs: vec![],
+        err: None,
+    };
+    // set-up: run to completion, or until the operation is parked
+    for (op, a, b) in &scn.1 {
+        let t = w.sched.ntasks() as i64;
+        if !run_label(&mut w, &mut out, vec![L_START, t, *op, *a, *b]) {
+            return out;
+        }
+        loop {
+            match w.sched.state(t as usize) {
+                Yield::Done(_) => break,
+                Yield::Sem if !w.sched.woken(t as usize) => break,
+                _ => {}
+            }
+            if !run_label(&mut w, &mut out, vec![L_STEP, t, 0, 0, 0]) {
+                return out;
+            }
+        }
+    }
+    let (op, a, b) = scn.2;
+    let mut ta: Option<i64> = None;
+    let mut tc: i64 = -1;
+    let mut done_a = 0;
+    for (j, k) in ks.iter().enumerate() {
+        while done_a < *k {
+            let l = match ta {
+                None => {
+                    let t = w.sched.ntasks() as i64;
+                    ta = Some(t);
+                    vec![L_START, t, op, a, b]
+                }
+                Some(t) => {
+                    if matches!(w.sched.state(t as usize), Yield::Done(_)) {
+                        break;
+                    }
+                    vec![L_STEP, t, 0, 0, 0]
+                }
+            };
+            if !run_label(&mut w, &mut out, l) {
+                return out;
+            }
+            done_a += 1;
+        }
+        let l = if j == 0 {
+            tc = w.sched.ntasks() as i64;
+            vec![L_START, tc, OP_CLOSE, 0, 0]
+        } else {
+            vec![L_STEP, tc, 0, 0, 0]
+        };
+        if !run_label(&mut w, &mut out, l) {
+            return out;
+        }
+    }
+    if ta.is_none() {
+        let t = w.sched.ntasks() as i64;
+        if !run_label(&mut w, &mut out, vec![L_START, t, op, a, b]) {
+            return out;
+        }
+    }
+    finish(&mut w, &mut out);
+    cleanup(w);
+    out
+}
+
 fn replay_trace(cfg: Cfg, labels: &[Vec<i64>]) -> TraceOut {
     let mut w = World::new(&cfg);
     let mut out = TraceOut {
@@ -774,6 +887,19 @@ fn main() {
             };
             let max_labels: usize = args[5].parse().unwrap();
             let mut master = Rng::new(seed);
+            if args[4] == "race" {
+                // every merge of close()'s labels with one other operation; all of them when n
+                // covers the space, a seeded sample otherwise
+                let scns = race_scenarios();
+                let pats = race_patterns();
+                let total = scns.len() * pats.len();
+                for i in 0..n {
+                    let idx = if n >= total { i % total } else { master.below(total as u64) as usize };
+                    let t = race_trace(&scns[idx / pats.len()], pats[idx % pats.len()]);
+                    print_trace(i, &t);
+                }
+                return;
+            }
             for i in 0..n {
                 let mut g = Gen {
                     rng: master.fork(),
